@@ -11,6 +11,19 @@ def step (d : D) (op impl : String) : D × DrvOut :=
   if op == "runs" then
     let sp' := C19.specRuns d.sp impl
     ({ d with sp := sp' }, { model := "-", spec := sp'.verdict }) else
+  if op == "srcrace" then
+    -- a `tick` during which the source instance reports ready / not-ready while Handler.Stop() runs
+    let armedReady := d.m.st.tSrcReady
+    let armedClose := d.m.st.tSrcClose
+    let (m', _, ans) := Drv.exec d.m .tick
+    let kind := if armedReady then "ready" else if armedClose then "notready" else "none"
+    let ans := if kind == "ready" then ans ++ " src=term" else ans
+    let ans := ans ++ s!" race={kind} loop=ok"
+    let sp' := C19.specOp d.sp d.m.st .tick impl
+    let sp' := if (Drv.implToks impl).contains "loop=dead" then
+        sp'.fail "the path loop does not answer any more after the source reported ready/not-ready while its handler was being stopped (Handler.Stop never returned)"
+      else sp'
+    ({ m := m', sp := sp' }, { model := ans, spec := sp'.verdict }) else
   let o := Drv.parseOp op
   let (m', _, ans) := Drv.exec d.m o
   let sp' := C19.specOp d.sp d.m.st o impl
